@@ -342,6 +342,53 @@ def check_callers(P, R):
     # POST: the urlencoded branch is entered for every body that is neither multipart nor JSON - whatever the framing
     check_view_guards(P, R, 'C18.b', 'ombott.request_pkg.body_mixin:BodyMixin.POST', lambda c: dotted(c.func) == 'parse_qsl', 'the urlencoded branch',
                       'URL-encoding pairs as an urlencoded body and parsing yields the same pairs')
+    check_ctype_tests(P, R, 'C18.b')
+    # the query that is parsed is this request's: the per-thread request object is bound to the environ on every way out of _handle (the 400 page of an
+    # undecodable path included - its handler may well look at request.query)
+    from ..report import Sub
+    from . import c09
+
+    class _RequestOnly(Sub):
+        def ob(self, rule, *a, **kw):
+            if kw.get('key_extra') != 'request.__init__(environ)':
+                return None
+            return Sub.ob(self, rule, *a, **kw)
+    c09.check_init_dominance(P, _RequestOnly(R, why='the pairs parsed from a query string are those of the request being answered'), 'C18.d')
+
+
+def check_ctype_tests(P, R, rid):
+    """Content-Type carries parameters (`application/x-www-form-urlencoded; charset=UTF-8` is what browsers and libraries send): a test deciding whether the body is
+    parsed as pairs looks at a prefix or at the media type (ctype[0]), never compares the whole header value with a literal"""
+    po = P.func('ombott.request_pkg.body_mixin:BodyMixin.POST')
+    g = po.cfg
+    sinks = [x for x in walk_shallow(po.node) if isinstance(x, ast.Call) and dotted(x.func) == 'parse_qsl']
+    for c in sinks:
+        cn = g.node_of_stmt(c)[0]
+        n_tests = 0
+        for n in g.nodes:
+            if n.kind != 'test' or not (g.edge_dominates(n, 'true', cn) or g.edge_dominates(n, 'false', cn)):
+                continue
+            n_tests += 1
+            for x in ast.walk(n.ast):
+                if not (isinstance(x, ast.Compare) and len(x.ops) == 1 and isinstance(x.ops[0], (ast.Eq, ast.NotEq, ast.In, ast.NotIn))):
+                    continue
+                l, r = x.left, x.comparators[0]
+                lit = r if isinstance(r, (ast.Constant, ast.Tuple, ast.List, ast.Set)) else (l if isinstance(l, ast.Constant) else None)
+                var = l if lit is r else r
+                if lit is None:
+                    continue
+                strs = [k.value for k in ast.walk(lit) if isinstance(k, ast.Constant) and isinstance(k.value, str)]
+                if not any('/' in s_ for s_ in strs):
+                    continue
+                vx = T.xsrc(po, var, n)
+                whole = 'content_type' in vx or "'CONTENT_TYPE'" in vx
+                if whole and '.split(' not in vx and 'ctype[' not in vx and '.partition(' not in vx:
+                    R.ob(rid, po, x, False, text=f'`{short(x)}` decides whether the body is parsed as pairs', detail=
+                         f'`{short(x)}` compares the whole Content-Type value (`{vx}`) with a literal: the header may carry parameters - '
+                         f'`application/x-www-form-urlencoded; charset=UTF-8` is not equal to the literal, the branch is skipped and the form comes back empty',
+                         why='URL-encoding pairs as an urlencoded body and parsing yields the same pairs', key_extra='ctype-whole-literal')
+        R.ob(rid, po, c, True, text=f'the urlencoded branch: {n_tests} deciding test(s) examined for whole-value comparisons of Content-Type', nontrivial=False,
+             key_extra='ctype-tests-summary')
 
 
 def check_container_keeps_object(P, R, rid):
@@ -752,6 +799,28 @@ def check_query_memo(P, R):
              f'request.query is memoised under `{k}`, but the change listener drops {sorted(prefix + d_ for d_ in dropped)} for QUERY_STRING: after '
              f'`request["QUERY_STRING"] = ...` (also on a copy of the request) the pairs of the first query keep being returned',
              why='parsing the query string of the request yields its pairs', key_extra='query-memo-key')
+    # ... and so is every other memoised accessor that is computed from the query (an alias spelt as a property of its own, params)
+    for cfq in ('ombott.request_pkg.body_mixin:BodyMixin', 'ombott.request_pkg.props_mixin:PropsMixin'):
+        c_ = P.classes.get(cfq)
+        if c_ is None:
+            continue
+        for mname, m in sorted(c_.methods.items()):
+            if m is q:
+                continue
+            # (the parsed pairs only: urlparts / query_string carry the raw text and are outside this property)
+            uses_query = any(isinstance(x, ast.Attribute) and x.attr in ('query', 'GET') and src(x.value) == 'self' for x in walk_shallow(m.node))
+            if not uses_query:
+                continue
+            for d in m.node.decorator_list:
+                if isinstance(d, ast.Call) and (dotted(d.func) or '').split('.')[-1] == 'cache_in' and d.args and isinstance(d.args[0], ast.Constant):
+                    mk = d.args[0].value.replace(' ', '')
+                    if mk.startswith('environ[') and mk.endswith(']'):
+                        k = mk[len('environ['):-1]
+                        ok = any(prefix + d_ == k for d_ in dropped)
+                        R.ob('C18.d', m, m.node, ok, text=f'memo key `{k}` of request.{mname} (computed from the query) is dropped when QUERY_STRING changes', detail='' if ok else
+                             f'request.{mname} is computed from the query and memoised under `{k}`, which the change listener does not drop for QUERY_STRING '
+                             f'(it drops {sorted(prefix + d_ for d_ in dropped)}): after `request["QUERY_STRING"] = ...` request.{mname} keeps returning the pairs of the old query',
+                             why='parsing the query string of the request yields its pairs', key_extra=f'query-memo-key:{mname}')
 
 
 def _str_consts(f, node):
